@@ -1,6 +1,7 @@
 import Tmv.Drv.Core
 import Tmv.Sha256
 import Tmv.Model.PartSet
+import Tmv.Model.TxProof
 namespace Tmv.Drv.C10
 open Tmv Tmv.Merkle Tmv.PartSet
 
@@ -42,6 +43,28 @@ def step (ps : Option PartSet.PartSet) (toks : List String) : Option PartSet.Par
     match (kv rest "root").bind ofHex, (kv rest "leaf").bind ofHex, parseProof rest with
     | some r, some leaf, some p => (ps, showVerify (verify Hs r leaf p))
     | _, _, _ => (ps, "bad-op")
+  | "txhash" :: rest =>
+    match (kv rest "txs").bind hexList with
+    | some txs => (ps, toHex (TxProof.txsHash Hs txs))
+    | none => (ps, "bad-op")
+  | "txproof" :: rest =>
+    match (kv rest "txs").bind hexList, (kv rest "i").bind String.toNat? with
+    | some txs, some i =>
+      if i < txs.length then
+        let tp := TxProof.proofFor Hs txs i
+        (ps, s!"{toHex tp.rootHash} {hexOrDash tp.data} {showProof tp.proof}")
+      else (ps, "panic")
+    | _, _ => (ps, "bad-op")
+  | "txvalidate" :: rest =>
+    match (kv rest "dh").bind ofHex, (kv rest "root").bind ofHex, (kv rest "data").bind ofHex, parseProof rest with
+    | some dh, some r, some d, some p =>
+      (ps, match TxProof.validate Hs dh { rootHash := r, data := d, proof := p } with
+        | .ok _ => "ok"
+        | .error .dataHash => "err-datahash"
+        | .error .index => "err-index"
+        | .error .total => "err-total"
+        | .error .inconsistent => "err-inconsistent")
+    | _, _, _, _ => (ps, "bad-op")
   | "new" :: rest =>
     match (kv rest "data").bind ofHex, (kv rest "psize").bind String.toNat? with
     | some d, some k =>
